@@ -35,124 +35,18 @@
                           P = reader invariant `Inv` + requests in the range `Rd.Small` of the reader model),
                           fuel ≥ |remaining| + 66
 
-  Structure (as Lemmas/Funcs/Skip.lean): `TSim` (same outcome), `loop{1,2,3}_sim` under `RecOK` by induction on the fuel,
-  `Tpl_Skip_sim` by induction on the depth.  Outcomes are compared in full: final back-end state, error value, Go
-  panics (`b[0]`, `b[1]`, `b[2:]`, `Uint32(b)` on a short slice returned by the back end: same panic kind on both sides).
+  Structure: the simulation proof itself is `TplG.Tpl_Skip_simG` (Lemmas/Funcs/TplG.lean: ANY interface value implementing
+  a model back end through an abstraction relation; loops under `RecOKG` by induction on the fuel, the function by
+  induction on the depth; written to survive harmless reshaping of the generated definition).  `Tpl_Skip_sim` here is
+  its instance `I = iOf B N.errOf`, `R = Eq` (`iOf_impl`); the error naming, `iOf`, `liftTpl` and `Meas` live in TplG.lean.
+  Outcomes are compared in full: final back-end state, error value, Go panics (`b[0]`, `b[1]`, `b[2:]`, `Uint32(b)` on
+  a short slice returned by the back end: same panic kind on both sides).
 -/
-import Verif.Lemmas.Funcs.Skip
-import Verif.Model.SkipStream
+import Verif.Lemmas.Funcs.TplG
 import Verif.Lemmas.ReaderOps
 set_option linter.unusedSimpArgs false
 namespace Verif.FuncsEq
 open Verif Verif.GoSem
-
-/-! ## errors: naming the model's `TErr` values as Go error values -/
-
-/-- an injection of the model's errors into `GoErr` (never `nil`) with a left inverse that reads a protocol exception
-    by its type id -/
-structure ErrNaming where
-  errOf : TErr → GoErr
-  absE : GoErr → TErr
-  ne_nil : ∀ e, errOf e ≠ GoErr.nil
-  inv : ∀ e, absE (errOf e) = e
-  pe : ∀ id msg, absE (GoErr.pe id msg) = TErr.pe id
-
-def rName : RErr → String
-  | .eof => "io.EOF"
-  | .noProgress => "io.ErrNoProgress"
-  | .negCount => "bufiox.errNegativeCount"
-  | .src k => "src#" ++ Nat.repr k
-
-def rOfChars (cs : List Char) : RErr :=
-  if cs.take 4 = ['s', 'r', 'c', '#'] then .src (Nat.ofDigitChars 10 (cs.drop 4) 0)
-  else if cs = "io.EOF".toList then .eof
-  else if cs = "io.ErrNoProgress".toList then .noProgress
-  else .negCount
-
-theorem rName_src (k : Nat) : (rName (.src k)).toList = 's' :: 'r' :: 'c' :: '#' :: Nat.toDigits 10 k := by
-  have h : "src#".toList = ['s', 'r', 'c', '#'] := by decide
-  simp only [rName, String.toList_append, Nat.toList_repr, h, List.cons_append, List.nil_append]
-
-theorem rOfChars_rName (e : RErr) : rOfChars (rName e).toList = e := by
-  cases e with
-  | eof => decide
-  | noProgress => decide
-  | negCount => decide
-  | src k =>
-    rw [rName_src]
-    simp [rOfChars, Nat.ofDigitChars_ten_toDigits]
-
-/-- the standard naming: a raw reader error by its name, a wrapped one as `GoSem.wrapErr` names it -/
-def errOfStd : TErr → GoErr
-  | .pe id => .pe id ""
-  | .raw e => .named (rName e)
-  | .wrap e => .named ("wrap:" ++ rName e)
-
-def absStd : GoErr → TErr
-  | .nil => .pe 0
-  | .pe id _ => .pe id
-  | .named s =>
-    if s.toList.take 5 = ['w', 'r', 'a', 'p', ':'] then .wrap (rOfChars (s.toList.drop 5)) else .raw (rOfChars s.toList)
-
-theorem absStd_errOfStd (e : TErr) : absStd (errOfStd e) = e := by
-  cases e with
-  | pe id => rfl
-  | wrap e =>
-    have h : "wrap:".toList = ['w', 'r', 'a', 'p', ':'] := by decide
-    simp [errOfStd, absStd, String.toList_append, h, rOfChars_rName]
-  | raw e =>
-    have h : (rName e).toList.take 5 ≠ ['w', 'r', 'a', 'p', ':'] := by
-      cases e with
-      | eof => decide
-      | noProgress => decide
-      | negCount => decide
-      | src k => rw [rName_src]; simp
-    simp [errOfStd, absStd, h, rOfChars_rName]
-
-theorem wrapErr_errOfStd (e : RErr) : wrapErr (errOfStd (.raw e)) = errOfStd (.wrap e) := rfl
-
-def stdNaming : ErrNaming where
-  errOf := errOfStd
-  absE := absStd
-  ne_nil e := by cases e <;> simp [errOfStd]
-  inv := absStd_errOfStd
-  pe _ _ := rfl
-
-/-! ## the model back end as an instance of the abstract Go interface; the lift -/
-
-/-- `B : Backend σ` as a `SkipDecoderIface` value. A negative count is never passed by `SkipDecoderTpl.Skip`
-    (`Tpl_Skip_sim` never reaches that branch). -/
-def iOf {σ : Type} (B : Backend σ) (errOf : TErr → GoErr) : SkipNI σ where
-  skipN s n :=
-    if n < 0 then .panic "SkipN: negative count"
-    else match B.skipN s n.toNat with
-      | .ok r => .ok ((r.1, GoErr.nil), r.2)
-      | .err e => .ok (([], errOf e), s)
-      | .panic m => .panic m
-      | .oob => .oob
-
-/-- result `(p, err)` of the translated `Skip` (receiver state afterwards, error) as the model's `TOut σ` -/
-def liftTpl {σ : Type} (absE : GoErr → TErr) (x : GM (σ × GoErr)) : TOut σ :=
-  match x with
-  | .ok r => if r.2 = GoErr.nil then .ok r.1 else .err (absE r.2)
-  | .panic s => .panic s
-  | .oob => .oob
-  | .err e => nomatch e
-
-theorem iOf_skipN {σ : Type} (B : Backend σ) (errOf : TErr → GoErr) (s : σ) (n : Int) (h : 0 ≤ n) :
-    (iOf B errOf).skipN s n =
-      match B.skipN s n.toNat with
-      | .ok r => .ok ((r.1, GoErr.nil), r.2)
-      | .err e => .ok (([], errOf e), s)
-      | .panic m => .panic m
-      | .oob => .oob := by
-  have h : ¬ (n < 0) := by omega
-  simp only [iOf, h, if_false]
-
-/-- a measure of what the back end can still deliver, under a back-end invariant `P` -/
-structure Meas {σ : Type} (B : Backend σ) (μ : σ → Nat) (P : σ → Prop) : Prop where
-  dec : ∀ s n b s', P s → n ≤ 34359738368 → B.skipN s n = .ok (b, s') → P s' ∧ μ s' + n ≤ μ s
-  le_avail : ∀ s, P s → μ s ≤ B.avail s
 
 namespace Tpl
 variable {σ : Type}
@@ -178,614 +72,35 @@ theorem TSim.perr (N : ErrNaming) (s : σ) (id : Int) (msg : String) :
   have := TSim.err (N := N) s (GoErr.pe id msg) (by simp)
   rwa [N.pe] at this
 
-/-- what the loops assume about the recursive call `rec` (translation) and `rec'` (model): they agree on every state
-    within the measure bound for which the fuel was chosen, and a successful call consumes -/
-structure RecOK (N : ErrNaming) (μ : σ → Nat) (P : σ → Prop) (rec : σ → Int → Int → GM (σ × GoErr))
-    (rec' : UInt8 → σ → TOut σ) (md : Int) (bound : Nat) : Prop where
-  sim : ∀ s t, P s → μ s ≤ bound → TSim N (rec s (toI8 t.toNat) (wrap .i64 (md - 1))) (rec' t s)
-  dec : ∀ s t s', P s → rec' t s = .ok s' → P s' ∧ μ s' + 1 ≤ μ s
 
-/-- outcome of a translated counted loop (MAP, LIST/SET) against the model loop -/
-inductive LSim (N : ErrNaming) : GM (LoopR (σ × GoErr) (σ × Int)) → TOut σ → Prop where
-  | done (s : σ) (j : Int) : LSim N (.ok (LoopR.done (s, j))) (.ok s)
-  | err (s : σ) (e : GoErr) (h : e ≠ GoErr.nil) : LSim N (.ok (LoopR.ret (s, e))) (.err (N.absE e))
-  | panic (m : String) : LSim N (.panic m) (.panic m)
-  | oob : LSim N .oob .oob
-
-theorem loop3_sim {N : ErrNaming} {μ : σ → Nat} {P : σ → Prop} {I : SkipNI σ} {rec rec' md bound}
-    (H : RecOK N μ P rec rec' md bound) (vt : UInt8) (sz : Nat) (hsz : sz < 2 ^ 31) :
-    ∀ (f : Nat) (s : σ) (j cnt : Nat), j + cnt = sz → μ s + 1 ≤ f → μ s ≤ bound → P s →
-      LSim N (Funcs.Tpl_Skip_loop3 I rec md (toI8 vt.toNat) (sz : Int) f s (j : Int)) (tplListLoop rec' vt cnt s) := by
-  intro f
-  induction f with
-  | zero => intro s j cnt _ hf; omega
-  | succ f ih =>
-    intro s j cnt hj hf hb hp
-    rw [Funcs.Tpl_Skip_loop3]
-    cases cnt with
-    | zero =>
-      have c : ¬ ((j : Int) < (sz : Int)) := by omega
-      simp only [c, decide_false, if_false, Bool.false_eq_true, Out.pure_eq, tplListLoop]
-      exact LSim.done s j
-    | succ cnt =>
-      have c : ((j : Int) < (sz : Int)) := by omega
-      simp only [c, decide_true, if_true, tplListLoop, Out.bind_eq]
-      have hs := H.sim s vt hp hb
-      have hd := H.dec s vt
-      generalize rec s (toI8 vt.toNat) (wrap .i64 (md - 1)) = x at hs
-      generalize rec' vt s = y at hs hd
-      cases hs with
-      | ok s1 =>
-        obtain ⟨hp1, hd1⟩ := hd s1 hp rfl
-        have w : wrap .i32 ((j : Int) + 1) = ((j + 1 : Nat) : Int) := by
-          rw [wrap_i32_of_range _ (by omega) (by omega)]; simp
-        simp only [Out.bind_ok, ne_eq, not_true_eq_false, decide_false, if_false, Bool.false_eq_true, w]
-        exact ih s1 (j + 1) cnt (by omega) (by omega) (by omega) hp1
-      | err s1 e h =>
-        simp only [Out.bind_ok, Out.bind_err, ne_eq, h, not_false_eq_true, decide_true, if_true, Out.pure_eq]
-        exact LSim.err _ e h
-      | panic m => exact LSim.panic m
-      | oob => exact LSim.oob
-
-theorem loop2_sim {N : ErrNaming} {μ : σ → Nat} {P : σ → Prop} {I : SkipNI σ} {rec rec' md bound}
-    (H : RecOK N μ P rec rec' md bound) (kt vt : UInt8) (sz : Nat) (hsz : sz < 2 ^ 31) :
-    ∀ (f : Nat) (s : σ) (j cnt : Nat), j + cnt = sz → μ s + 1 ≤ f → μ s ≤ bound → P s →
-      LSim N (Funcs.Tpl_Skip_loop2 I rec md (toI8 kt.toNat) (toI8 vt.toNat) (sz : Int) f s (j : Int))
-        (tplMapLoop rec' kt vt cnt s) := by
-  intro f
-  induction f with
-  | zero => intro s j cnt _ hf; omega
-  | succ f ih =>
-    intro s j cnt hj hf hb hp
-    rw [Funcs.Tpl_Skip_loop2]
-    cases cnt with
-    | zero =>
-      have c : ¬ ((j : Int) < (sz : Int)) := by omega
-      simp only [c, decide_false, if_false, Bool.false_eq_true, Out.pure_eq, tplMapLoop]
-      exact LSim.done s j
-    | succ cnt =>
-      have c : ((j : Int) < (sz : Int)) := by omega
-      simp only [c, decide_true, if_true, tplMapLoop, Out.bind_eq]
-      have hs := H.sim s kt hp hb
-      have hd := H.dec s kt
-      generalize rec s (toI8 kt.toNat) (wrap .i64 (md - 1)) = x at hs
-      generalize rec' kt s = y at hs hd
-      cases hs with
-      | ok s1 =>
-        obtain ⟨hp1, hd1⟩ := hd s1 hp rfl
-        simp only [Out.bind_ok, ne_eq, not_true_eq_false, decide_false, if_false, Bool.false_eq_true]
-        have hs2 := H.sim s1 vt hp1 (by omega)
-        have hd2 := H.dec s1 vt
-        generalize rec s1 (toI8 vt.toNat) (wrap .i64 (md - 1)) = x2 at hs2
-        generalize rec' vt s1 = y2 at hs2 hd2
-        cases hs2 with
-        | ok s2 =>
-          obtain ⟨hp2, hd2'⟩ := hd2 s2 hp1 rfl
-          have w : wrap .i32 ((j : Int) + 1) = ((j + 1 : Nat) : Int) := by
-            rw [wrap_i32_of_range _ (by omega) (by omega)]; simp
-          simp only [Out.bind_ok, ne_eq, not_true_eq_false, decide_false, if_false, Bool.false_eq_true, w]
-          exact ih s2 (j + 1) cnt (by omega) (by omega) (by omega) hp2
-        | err s2 e h =>
-          simp only [Out.bind_ok, Out.bind_err, ne_eq, h, not_false_eq_true, decide_true, if_true, Out.pure_eq]
-          exact LSim.err _ e h
-        | panic m => exact LSim.panic m
-        | oob => exact LSim.oob
-      | err s1 e h =>
-        simp only [Out.bind_ok, Out.bind_err, ne_eq, h, not_false_eq_true, decide_true, if_true, Out.pure_eq]
-        exact LSim.err _ e h
-      | panic m => exact LSim.panic m
-      | oob => exact LSim.oob
-
-/-- outcome of the translated STRUCT loop against the model loop: `done` (the `break` at STOP) is the model's `ok` -/
-inductive LSim1 (N : ErrNaming) : GM (LoopR (σ × GoErr) σ) → TOut σ → Prop where
-  | done (s : σ) : LSim1 N (.ok (LoopR.done s)) (.ok s)
-  | err (s : σ) (e : GoErr) (h : e ≠ GoErr.nil) : LSim1 N (.ok (LoopR.ret (s, e))) (.err (N.absE e))
-  | panic (m : String) : LSim1 N (.panic m) (.panic m)
-  | oob : LSim1 N .oob .oob
-
-theorem LSim1.berr (N : ErrNaming) (s : σ) (e : TErr) : LSim1 N (.ok (LoopR.ret (s, N.errOf e))) (.err e) := by
-  have := LSim1.err (N := N) s (N.errOf e) (N.ne_nil e)
-  rwa [N.inv] at this
-
-/-- `b[k]` in the translation: the model's `idx` with the byte as an integer -/
-theorem gidx_nat (b : Bytes) (k : Nat) :
-    GoSem.idx b (k : Int) = match b[k]? with | some x => .ok ((x.toNat : Nat) : Int) | none => .panic "index" := by
-  have h : ¬ ((k : Int) < 0) := by omega
-  simp only [GoSem.idx, h, if_false, Int.toNat_natCast]
-  cases b[k]? <;> rfl
-
-theorem gidx0 (b : Bytes) :
-    GoSem.idx b 0 = match b[0]? with | some x => .ok ((x.toNat : Nat) : Int) | none => .panic "index" := gidx_nat b 0
-theorem gidx1 (b : Bytes) :
-    GoSem.idx b 1 = match b[1]? with | some x => .ok ((x.toNat : Nat) : Int) | none => .panic "index" := gidx_nat b 1
-
-theorem loop1_sim {N : ErrNaming} {B : Backend σ} {μ : σ → Nat} {P : σ → Prop} {rec rec' md bound} (hM : Meas B μ P)
-    (H : RecOK N μ P rec rec' md bound) :
-    ∀ (f1 f2 : Nat) (s : σ), μ s + 1 ≤ f1 → μ s + 1 ≤ f2 → μ s ≤ bound → P s →
-      LSim1 N (Funcs.Tpl_Skip_loop1 (iOf B N.errOf) rec md f1 s) (tplStructLoop B rec' f2 s) := by
-  intro f1
-  induction f1 with
-  | zero => intro f2 s hf; omega
-  | succ f1 ih =>
-    intro f2 s hf1 hf2 hb hp
-    cases f2 with
-    | zero => omega
-    | succ f2 =>
-      rw [Funcs.Tpl_Skip_loop1, tplStructLoop, iOf_skipN _ _ _ _ (by omega)]
-      have e1 : (1 : Int).toNat = 1 := rfl
-      rw [e1]
-      cases hsk : B.skipN s 1 with
-      | ok r =>
-        obtain ⟨b, s1⟩ := r
-        obtain ⟨hp1, hd1⟩ := hM.dec _ _ _ _ hp (by omega) hsk
-        simp only [Out.bind_eq, Out.bind_ok, ne_eq, not_true_eq_false, decide_false, if_false, Bool.false_eq_true]
-        rw [gidx0, Verif.idx]
-        cases hb0 : b[0]? with
-        | none => exact LSim1.panic _
-        | some tp =>
-          simp only [Out.bind_ok, wrap_i8_nat _ tp.toNat_lt]
-          by_cases hstop : tp = T_STOP
-          · have c0 : toI8 tp.toNat = 0 := (toI8_eq_0 tp).mpr hstop
-            simp only [if_pos hstop, c0, decide_true, if_true, Out.pure_eq]
-            exact LSim1.done s1
-          · have c0 : ¬ toI8 tp.toNat = 0 := fun h => hstop ((toI8_eq_0 tp).mp h)
-            simp only [if_neg hstop, c0, decide_false, if_false, Bool.false_eq_true]
-            rw [iOf_skipN _ _ _ _ (by omega)]
-            have e2 : (2 : Int).toNat = 2 := rfl
-            rw [e2]
-            cases hsk2 : B.skipN s1 2 with
-            | ok r2 =>
-              obtain ⟨b2, s2⟩ := r2
-              obtain ⟨hp2, hd2⟩ := hM.dec _ _ _ _ hp1 (by omega) hsk2
-              simp only [Out.bind_ok, ne_eq, not_true_eq_false, decide_false, if_false, Bool.false_eq_true]
-              have hs := H.sim s2 tp hp2 (by omega)
-              have hd := H.dec s2 tp
-              generalize rec s2 (toI8 tp.toNat) (wrap .i64 (md - 1)) = x at hs
-              generalize rec' tp s2 = y at hs hd
-              cases hs with
-              | ok s3 =>
-                obtain ⟨hp3, hd3⟩ := hd s3 hp2 rfl
-                simp only [Out.bind_ok, ne_eq, not_true_eq_false, decide_false, if_false, Bool.false_eq_true]
-                exact ih f2 s3 (by omega) (by omega) (by omega) hp3
-              | err s3 e h =>
-                simp only [Out.bind_ok, Out.bind_err, ne_eq, h, not_false_eq_true, decide_true, if_true, Out.pure_eq]
-                exact LSim1.err _ e h
-              | panic m => exact LSim1.panic m
-              | oob => exact LSim1.oob
-            | err e =>
-              simp only [Out.bind_ok, Out.bind_err, ne_eq, N.ne_nil, not_false_eq_true, decide_true, if_true, Out.pure_eq]
-              exact LSim1.berr N _ e
-            | panic m => exact LSim1.panic m
-            | oob => exact LSim1.oob
-      | err e =>
-        simp only [Out.bind_eq, Out.bind_ok, Out.bind_err, ne_eq, N.ne_nil, not_false_eq_true, decide_true, if_true,
-          Out.pure_eq]
-        exact LSim1.berr N _ e
-      | panic m => exact LSim1.panic m
-      | oob => exact LSim1.oob
-
-/-! ## the model consumes: a successful `skipTplAt` lowers the measure by at least 1 -/
-
-theorem bind_ok_inv {ε α β : Type} {x : Out ε α} {f : α → Out ε β} {b : β} (h : x.bind f = .ok b) :
-    ∃ a, x = .ok a ∧ f a = .ok b := by
-  cases x with
-  | ok a => exact ⟨a, rfl, h⟩
-  | err e => cases h
-  | panic m => cases h
-  | oob => cases h
-
-theorem tplListLoop_le {μ : σ → Nat} {P : σ → Prop} {rec' : UInt8 → σ → TOut σ}
-    (hrec : ∀ s t s', P s → rec' t s = .ok s' → P s' ∧ μ s' + 1 ≤ μ s) (vt : UInt8) :
-    ∀ cnt s s', P s → tplListLoop rec' vt cnt s = .ok s' → P s' ∧ μ s' ≤ μ s := by
-  intro cnt
-  induction cnt with
-  | zero => intro s s' hp h; simp only [tplListLoop, Out.ok.injEq] at h; subst h; exact ⟨hp, Nat.le_refl _⟩
-  | succ cnt ih =>
-    intro s s' hp h
-    simp only [tplListLoop, Out.bind_eq] at h
-    obtain ⟨s1, h1, h2⟩ := bind_ok_inv h
-    obtain ⟨hp1, _⟩ := hrec _ _ _ hp h1
-    obtain ⟨hp2, _⟩ := ih _ _ hp1 h2
-    exact ⟨hp2, by omega⟩
-
-theorem tplMapLoop_le {μ : σ → Nat} {P : σ → Prop} {rec' : UInt8 → σ → TOut σ}
-    (hrec : ∀ s t s', P s → rec' t s = .ok s' → P s' ∧ μ s' + 1 ≤ μ s) (kt vt : UInt8) :
-    ∀ cnt s s', P s → tplMapLoop rec' kt vt cnt s = .ok s' → P s' ∧ μ s' ≤ μ s := by
-  intro cnt
-  induction cnt with
-  | zero => intro s s' hp h; simp only [tplMapLoop, Out.ok.injEq] at h; subst h; exact ⟨hp, Nat.le_refl _⟩
-  | succ cnt ih =>
-    intro s s' hp h
-    simp only [tplMapLoop, Out.bind_eq] at h
-    obtain ⟨s1, h1, h2⟩ := bind_ok_inv h
-    obtain ⟨s2, h3, h4⟩ := bind_ok_inv h2
-    obtain ⟨hp1, _⟩ := hrec _ _ _ hp h1
-    obtain ⟨hp2, _⟩ := hrec _ _ _ hp1 h3
-    obtain ⟨hp3, _⟩ := ih _ _ hp2 h4
-    exact ⟨hp3, by omega⟩
-
-theorem tplStructLoop_lt {B : Backend σ} {μ : σ → Nat} {P : σ → Prop} (hM : Meas B μ P) {rec' : UInt8 → σ → TOut σ}
-    (hrec : ∀ s t s', P s → rec' t s = .ok s' → P s' ∧ μ s' + 1 ≤ μ s) :
-    ∀ fuel s s', P s → tplStructLoop B rec' fuel s = .ok s' → P s' ∧ μ s' + 1 ≤ μ s := by
-  intro fuel
-  induction fuel with
-  | zero => intro s s' _ h; simp [tplStructLoop] at h
-  | succ fuel ih =>
-    intro s s' hp h
-    simp only [tplStructLoop, Out.bind_eq] at h
-    obtain ⟨⟨b, s1⟩, h1, h2⟩ := bind_ok_inv h
-    obtain ⟨hp1, d1⟩ := hM.dec _ _ _ _ hp (by omega) h1
-    obtain ⟨tp, _, h3⟩ := bind_ok_inv h2
-    by_cases hstop : tp = T_STOP
-    · simp only [hstop, if_true, Out.pure_eq, Out.ok.injEq] at h3
-      subst h3; exact ⟨hp1, by omega⟩
-    · simp only [hstop, if_false] at h3
-      obtain ⟨⟨b2, s2⟩, h4, h5⟩ := bind_ok_inv h3
-      obtain ⟨hp2, d2⟩ := hM.dec _ _ _ _ hp1 (by omega) h4
-      obtain ⟨s3, h6, h7⟩ := bind_ok_inv h5
-      dsimp only at h6
-      obtain ⟨hp3, _⟩ := hrec _ _ _ hp2 h6
-      obtain ⟨hp4, _⟩ := ih _ _ hp3 h7
-      exact ⟨hp4, by omega⟩
-
-theorem u32of_ok {b : Bytes} {v : Nat} (h : u32of b = .ok v) : (toI32 v).toNat < 2147483648 := by
-  unfold u32of at h
-  by_cases h4 : 4 ≤ b.length
-  · simp only [h4, if_true, Out.ok.injEq] at h
-    subst h
-    have := toI32_range _ (rd32_lt b)
-    omega
-  · simp [h4] at h
-
-/-- every successful `SkipDecoderTpl.Skip` consumes at least one unit of the measure (and keeps the invariant) -/
-theorem skipTplAt_dec {B : Backend σ} {μ : σ → Nat} {P : σ → Prop} (hM : Meas B μ P) :
-    ∀ d t s s', P s → skipTplAt B d t s = .ok s' → P s' ∧ μ s' + 1 ≤ μ s := by
-  intro d
-  induction d with
-  | zero => intro t s s' _ h; simp [skipTplAt] at h
-  | succ d ih =>
-    intro t s s' hp h
-    have hrec : ∀ s t s', P s → skipTplAt B d t s = .ok s' → P s' ∧ μ s' + 1 ≤ μ s := fun s t s' hp h => ih t s s' hp h
-    simp only [skipTplAt, typeSize_eq, Out.bind_eq, Out.bind_ok, Int.toNat_natCast] at h
-    by_cases hfix : ((fixedSize t : Nat) : Int) > 0
-    · simp only [hfix, if_true] at h
-      obtain ⟨⟨b, s1⟩, h1, h2⟩ := bind_ok_inv h
-      have := fixedSize_le t
-      obtain ⟨hp1, _⟩ := hM.dec _ _ _ _ hp (by omega) h1
-      simp only [Out.pure_eq, Out.ok.injEq] at h2
-      subst h2; exact ⟨hp1, by omega⟩
-    · simp only [hfix, if_false] at h
-      by_cases hstr : t = T_STRING
-      · simp only [hstr, if_true] at h
-        obtain ⟨⟨b, s1⟩, h1, h2⟩ := bind_ok_inv h
-        obtain ⟨hp1, _⟩ := hM.dec _ _ _ _ hp (by omega) h1
-        obtain ⟨v, hv, h3⟩ := bind_ok_inv h2
-        have hvl := u32of_ok hv
-        by_cases hn : toI32 v < 0
-        · simp [hn] at h3
-        · simp only [hn, if_false] at h3
-          obtain ⟨⟨b2, s2⟩, h4, h5⟩ := bind_ok_inv h3
-          obtain ⟨hp2, _⟩ := hM.dec _ _ _ _ hp1 (by omega) h4
-          simp only [Out.pure_eq, Out.ok.injEq] at h5
-          subst h5; exact ⟨hp2, by omega⟩
-      · simp only [hstr, if_false] at h
-        by_cases hst : t = T_STRUCT
-        · simp only [hst, if_true] at h
-          exact tplStructLoop_lt hM hrec _ _ _ hp h
-        · simp only [hst, if_false] at h
-          by_cases hmap : t = T_MAP
-          · simp only [hmap, if_true] at h
-            obtain ⟨⟨b, s1⟩, h1, h2⟩ := bind_ok_inv h
-            obtain ⟨hp1, _⟩ := hM.dec _ _ _ _ hp (by omega) h1
-            obtain ⟨kt, _, h3⟩ := bind_ok_inv h2
-            obtain ⟨vt, _, h4⟩ := bind_ok_inv h3
-            obtain ⟨v, hv, h5⟩ := bind_ok_inv h4
-            have hvl := u32of_ok hv
-            by_cases hn : toI32 v < 0
-            · simp [hn] at h5
-            · simp only [hn, if_false] at h5
-              by_cases hfast : ((fixedSize kt : Nat) : Int) > 0 ∧ ((fixedSize vt : Nat) : Int) > 0
-              · simp only [hfast, and_self, if_true] at h5
-                obtain ⟨⟨b2, s2⟩, h6, h7⟩ := bind_ok_inv h5
-                have hk := fixedSize_le kt
-                have hv8 := fixedSize_le vt
-                have hq : (toI32 v).toNat * (fixedSize kt + fixedSize vt) ≤ 2147483648 * 16 :=
-                  Nat.mul_le_mul (by omega) (by omega)
-                obtain ⟨hp2, _⟩ := hM.dec _ _ _ _ hp1 (by omega) h6
-                simp only [Out.pure_eq, Out.ok.injEq] at h7
-                subst h7; exact ⟨hp2, by omega⟩
-              · simp only [hfast, if_false] at h5
-                obtain ⟨hp2, _⟩ := tplMapLoop_le hrec _ _ _ _ _ hp1 h5
-                exact ⟨hp2, by omega⟩
-          · simp only [hmap, if_false] at h
-            by_cases hlist : t = T_SET ∨ t = T_LIST
-            · simp only [hlist, if_true] at h
-              obtain ⟨⟨b, s1⟩, h1, h2⟩ := bind_ok_inv h
-              obtain ⟨hp1, _⟩ := hM.dec _ _ _ _ hp (by omega) h1
-              obtain ⟨vt, _, h3⟩ := bind_ok_inv h2
-              obtain ⟨v, hv, h4⟩ := bind_ok_inv h3
-              have hvl := u32of_ok hv
-              by_cases hn : toI32 v < 0
-              · simp [hn] at h4
-              · simp only [hn, if_false] at h4
-                by_cases hfast : ((fixedSize vt : Nat) : Int) > 0
-                · simp only [hfast, if_true] at h4
-                  obtain ⟨⟨b2, s2⟩, h6, h7⟩ := bind_ok_inv h4
-                  have hv8 := fixedSize_le vt
-                  have hq : (toI32 v).toNat * fixedSize vt ≤ 2147483648 * 8 := Nat.mul_le_mul (by omega) hv8
-                  obtain ⟨hp2, _⟩ := hM.dec _ _ _ _ hp1 (by omega) h6
-                  simp only [Out.pure_eq, Out.ok.injEq] at h7
-                  subst h7; exact ⟨hp2, by omega⟩
-                · simp only [hfast, if_false] at h4
-                  obtain ⟨hp2, _⟩ := tplListLoop_le hrec _ _ _ _ hp1 h4
-                  exact ⟨hp2, by omega⟩
-            · simp [hlist] at h
-
-/-! ## the whole function, by induction on the depth -/
-
-theorem recOK_of_ih (N : ErrNaming) {B : Backend σ} {μ : σ → Nat} {P : σ → Prop} (hM : Meas B μ P) (d f bound : Nat)
-    (hd : d + 1 < 2 ^ 63) (hf : bound + d + 2 ≤ f)
-    (ih : ∀ (f : Nat) (s : σ) (t : UInt8) (D : Int), P s → μ s + d + 2 ≤ f → D = (d : Int) →
-      TSim N (Funcs.Tpl_Skip (iOf B N.errOf) f s (toI8 t.toNat) D) (skipTplAt B d t s)) :
-    RecOK N μ P (fun a0 a1 a2 => Funcs.Tpl_Skip (iOf B N.errOf) f a0 a1 a2) (skipTplAt B d) ((d + 1 : Nat) : Int)
-      bound := by
+/-- the model back end seen as the interface value `iOf B N.errOf` implements itself (abstraction relation: equality) -/
+theorem iOf_impl (N : ErrNaming) (B : Backend σ) (P : σ → Prop) : TplG.Impl N Eq (iOf B N.errOf) B P := by
   constructor
-  · intro s t hp hb
-    exact ih f s t _ hp (by omega) (by rw [wrap_i64_of_range _ (by omega) (by omega)]; omega)
-  · intro s t s' hp h
-    exact skipTplAt_dec hM d t s s' hp h
+  intro p s n hR _ h0 _
+  subst hR
+  rw [iOf_skipN _ _ _ _ h0]
+  cases B.skipN p n.toNat with
+  | ok r => exact TplG.SSim.ok r.1 r.2 r.2 rfl
+  | err e =>
+    have := TplG.SSim.err (N := N) (R := (Eq : σ → σ → Prop)) [] p (N.errOf e) (N.ne_nil e)
+    rwa [N.inv] at this
+  | panic m => exact TplG.SSim.panic m
+  | oob => exact TplG.SSim.oob
 
-theorem beU32_eq (b : Bytes) : beU32 b = if 4 ≤ b.length then .ok (rd32 b : Int) else .panic "index" := by
-  unfold beU32
-  by_cases h : 4 ≤ b.length
-  · have : ¬ b.length < 4 := by omega
-    simp [h, this]
-  · have : b.length < 4 := by omega
-    simp [h, this]
-
-theorem sliceFrom_ok (b : Bytes) (k : Int) (h0 : 0 ≤ k) (h : k ≤ len b) : sliceFrom b k = .ok (b.drop k.toNat) := by
-  unfold sliceFrom
-  have : ¬ (k < 0 ∨ k > len b) := by omega
-  simp [this]
+theorem TSim.of_G {N : ErrNaming} {x : GM (σ × GoErr)} {y : TOut σ} (h : TplG.GSim N Eq x y) : TSim N x y := by
+  cases h with
+  | ok p s h => subst h; exact TSim.ok p
+  | err p e h => exact TSim.err p e h
+  | panic m => exact TSim.panic m
+  | oob => exact TSim.oob
 
 /-- `SkipDecoderTpl.Skip`, whole function, translated from the Go source, over the model back end `B`: the model
-    `skipTplAt B`, final back-end state, error, and every panic included -/
+    `skipTplAt B`, final back-end state, error, and every panic included (instance of `TplG.Tpl_Skip_simG`) -/
 theorem Tpl_Skip_sim (N : ErrNaming) {B : Backend σ} {μ : σ → Nat} {P : σ → Prop} (hM : Meas B μ P) :
     ∀ (d f : Nat) (s : σ) (t : UInt8) (D : Int), d < 2 ^ 63 → P s → μ s + d + 2 ≤ f → D = (d : Int) →
-      TSim N (Funcs.Tpl_Skip (iOf B N.errOf) f s (toI8 t.toNat) D) (skipTplAt B d t s) := by
-  intro d
-  induction d with
-  | zero =>
-    intro f s t D hd hp hf hD
-    cases f with
-    | zero => omega
-    | succ f =>
-      subst hD
-      rw [Funcs.Tpl_Skip]
-      simp only [skipTplAt, Int.natCast_zero, decide_true, if_true, Out.pure_eq]
-      exact TSim.perr N s 6 _
-  | succ d ih =>
-    intro f s t D hd hp hf hD
-    cases f with
-    | zero => omega
-    | succ f =>
-      have H := recOK_of_ih N hM d f (μ s) hd (by omega) (fun f s t D h0 h1 h2 => ih f s t D (by omega) h0 h1 h2)
-      subst hD
-      rw [Funcs.Tpl_Skip]
-      have cD : ¬ ((d + 1 : Nat) : Int) = 0 := by omega
-      simp only [skipTplAt, cD, decide_false, if_false, Bool.false_eq_true, tblIdx_fixed, typeSize_eq,
-        Out.bind_ok, Out.bind_eq, Out.pure_eq]
-      by_cases hfix : ((fixedSize t : Nat) : Int) > 0
-      · simp only [hfix, decide_true, if_true]
-        rw [iOf_skipN _ _ _ _ (by omega)]
-        cases hsk : B.skipN s ((fixedSize t : Nat) : Int).toNat with
-        | ok r => exact TSim.ok _
-        | err e => exact TSim.berr N _ e
-        | panic m => exact TSim.panic m
-        | oob => exact TSim.oob
-      · simp only [hfix, decide_false, if_false, Bool.false_eq_true]
-        by_cases hstr : t = T_STRING
-        · have c : toI8 t.toNat = 11 := (toI8_eq_11 t).mpr hstr
-          simp only [if_pos hstr, c, decide_true, if_true]
-          rw [iOf_skipN _ _ _ _ (by omega)]
-          have e4 : (4 : Int).toNat = 4 := rfl
-          rw [e4]
-          cases hsk : B.skipN s 4 with
-          | ok r =>
-            obtain ⟨b, s1⟩ := r
-            simp only [Out.bind_ok, ne_eq, not_true_eq_false, decide_false, if_false, Bool.false_eq_true, beU32_eq, u32of]
-            by_cases h4 : 4 ≤ b.length
-            · simp only [h4, if_true, Out.bind_ok, wrap_i32_nat _ (rd32_lt b)]
-              have hr := toI32_range _ (rd32_lt b)
-              generalize toI32 (rd32 b) = n at hr
-              by_cases hn : n < 0
-              · simp only [hn, decide_true, if_true]
-                exact TSim.perr N s1 2 _
-              · simp only [hn, decide_false, if_false, Bool.false_eq_true]
-                rw [iOf_skipN _ _ _ _ (by omega)]
-                cases hsk2 : B.skipN s1 n.toNat with
-                | ok r2 =>
-                  simp only [Out.bind_ok, ne_eq, not_true_eq_false, decide_false, if_false, Bool.false_eq_true]
-                  exact TSim.ok _
-                | err e =>
-                  simp only [Out.bind_ok, Out.bind_err, ne_eq, N.ne_nil, not_false_eq_true, decide_true, if_true]
-                  exact TSim.berr N _ e
-                | panic m => exact TSim.panic m
-                | oob => exact TSim.oob
-            · simp only [h4, if_false, Out.bind_panic]
-              exact TSim.panic _
-          | err e =>
-            simp only [Out.bind_ok, Out.bind_err, ne_eq, N.ne_nil, not_false_eq_true, decide_true, if_true]
-            exact TSim.berr N _ e
-          | panic m => exact TSim.panic m
-          | oob => exact TSim.oob
-        · have c : ¬ toI8 t.toNat = 11 := fun h => hstr ((toI8_eq_11 t).mp h)
-          simp only [if_neg hstr, c, decide_false, if_false, Bool.false_eq_true]
-          by_cases hst : t = T_STRUCT
-          · have c : toI8 t.toNat = 12 := (toI8_eq_tag t 12 (by omega)).mpr hst
-            simp only [if_pos hst, c, decide_true, if_true]
-            have hl := loop1_sim hM H f (B.avail s + 1) s (by omega) (by have := hM.le_avail s hp; omega)
-              (Nat.le_refl _) hp
-            generalize Funcs.Tpl_Skip_loop1 _ _ _ _ _ = x at hl ⊢
-            generalize tplStructLoop _ _ _ _ = y at hl ⊢
-            cases hl with
-            | done s1 => exact TSim.ok s1
-            | err s1 e h => exact TSim.err s1 e h
-            | panic m => exact TSim.panic m
-            | oob => exact TSim.oob
-          · have c : ¬ toI8 t.toNat = 12 := fun h => hst ((toI8_eq_tag t 12 (by omega)).mp h)
-            simp only [if_neg hst, c, decide_false, if_false, Bool.false_eq_true]
-            by_cases hmap : t = T_MAP
-            · have c : toI8 t.toNat = 13 := (toI8_eq_tag t 13 (by omega)).mpr hmap
-              simp only [if_pos hmap, c, decide_true, if_true]
-              rw [iOf_skipN _ _ _ _ (by omega)]
-              have e6 : (6 : Int).toNat = 6 := rfl
-              rw [e6]
-              cases hsk : B.skipN s 6 with
-              | ok r =>
-                obtain ⟨b, s1⟩ := r
-                obtain ⟨hp1, hd1⟩ := hM.dec _ _ _ _ hp (by omega) hsk
-                simp only [Out.bind_ok, ne_eq, not_true_eq_false, decide_false, if_false, Bool.false_eq_true,
-                  gidx0, gidx1, Verif.idx]
-                cases hb0 : b[0]? with
-                | none => exact TSim.panic _
-                | some kt =>
-                  simp only [Out.bind_ok]
-                  cases hb1 : b[1]? with
-                  | none => exact TSim.panic _
-                  | some vt =>
-                    have hlen : 2 ≤ b.length := by
-                      obtain ⟨h, _⟩ := List.getElem?_eq_some_iff.mp hb1; omega
-                    simp only [Out.bind_ok, sliceFrom_ok b 2 (by omega) (by unfold len; omega), beU32_eq, u32of]
-                    have e2 : (2 : Int).toNat = 2 := rfl
-                    rw [e2]
-                    generalize b.drop 2 = b2
-                    by_cases h4 : 4 ≤ b2.length
-                    · simp only [h4, if_true, Out.bind_ok, wrap_i32_nat _ (rd32_lt b2)]
-                      have hr := toI32_range _ (rd32_lt b2)
-                      generalize toI32 (rd32 b2) = n at hr
-                      by_cases hn : n < 0
-                      · simp only [hn, decide_true, if_true]
-                        exact TSim.perr N s1 2 _
-                      · simp only [hn, decide_false, if_false, Bool.false_eq_true, wrap_i8_nat _ vt.toNat_lt,
-                          wrap_i8_nat _ kt.toNat_lt, tblIdx_fixed, Out.bind_ok]
-                        obtain ⟨sz, rfl⟩ := Int.eq_ofNat_of_zero_le (by omega : 0 ≤ n)
-                        have hs : sz < 2 ^ 31 := by omega
-                        simp only [Int.toNat_natCast]
-                        by_cases hfast : ((fixedSize kt : Nat) : Int) > 0 ∧ ((fixedSize vt : Nat) : Int) > 0
-                        · have hk := fixedSize_le kt
-                          have hv := fixedSize_le vt
-                          have hq : sz * (fixedSize kt + fixedSize vt) ≤ 2 ^ 31 * 16 :=
-                            Nat.mul_le_mul (by omega) (by omega)
-                          have e0 : wrap .i64 (((fixedSize kt : Nat) : Int) + ((fixedSize vt : Nat) : Int)) =
-                              ((fixedSize kt + fixedSize vt : Nat) : Int) := by
-                            rw [wrap_i64_of_range _ (by omega) (by omega)]; simp
-                          have e1 : ((sz : Int) * ((fixedSize kt + fixedSize vt : Nat) : Int)) =
-                              ((sz * (fixedSize kt + fixedSize vt) : Nat) : Int) := by simp
-                          rw [e0, e1]
-                          generalize sz * (fixedSize kt + fixedSize vt) = q at hq
-                          rw [wrap_i64_of_range (q : Int) (by omega) (by omega), iOf_skipN _ _ _ _ (by omega)]
-                          simp only [hfast, and_self, decide_true, Bool.and_self, if_true, Int.toNat_natCast]
-                          cases hsk2 : B.skipN s1 q with
-                          | ok r2 => exact TSim.ok _
-                          | err e => exact TSim.berr N _ e
-                          | panic m => exact TSim.panic m
-                          | oob => exact TSim.oob
-                        · have cfast : (decide (((fixedSize kt : Nat) : Int) > 0) &&
-                              decide (((fixedSize vt : Nat) : Int) > 0)) = false := by
-                            simpa using hfast
-                          simp only [hfast, cfast, if_false, Bool.false_eq_true]
-                          have hl := loop2_sim (I := iOf B N.errOf) H kt vt sz hs f s1 0 sz (by omega) (by omega)
-                            (by omega) hp1
-                          simp only [Int.natCast_zero] at hl
-                          generalize Funcs.Tpl_Skip_loop2 _ _ _ _ _ _ _ _ _ = x at hl ⊢
-                          generalize tplMapLoop _ _ _ _ _ = y at hl ⊢
-                          cases hl with
-                          | done s2 j => exact TSim.ok s2
-                          | err s2 e h => exact TSim.err s2 e h
-                          | panic m => exact TSim.panic m
-                          | oob => exact TSim.oob
-                    · simp only [h4, if_false, Out.bind_panic]
-                      exact TSim.panic _
-              | err e =>
-                simp only [Out.bind_ok, Out.bind_err, ne_eq, N.ne_nil, not_false_eq_true, decide_true, if_true]
-                exact TSim.berr N _ e
-              | panic m => exact TSim.panic m
-              | oob => exact TSim.oob
-            · have c : ¬ toI8 t.toNat = 13 := fun h => hmap ((toI8_eq_tag t 13 (by omega)).mp h)
-              simp only [if_neg hmap, c, decide_false, if_false, Bool.false_eq_true]
-              by_cases hlist : t = T_SET ∨ t = T_LIST
-              · have c : (decide (toI8 t.toNat = 14) || decide (toI8 t.toNat = 15)) = true := by
-                  rcases hlist with h | h
-                  · have := (toI8_eq_tag t 14 (by omega)).mpr h; simp [this]
-                  · have := (toI8_eq_tag t 15 (by omega)).mpr h; simp [this]
-                simp only [if_pos hlist, c, if_true]
-                rw [iOf_skipN _ _ _ _ (by omega)]
-                have e5 : (5 : Int).toNat = 5 := rfl
-                rw [e5]
-                cases hsk : B.skipN s 5 with
-                | ok r =>
-                  obtain ⟨b, s1⟩ := r
-                  obtain ⟨hp1, hd1⟩ := hM.dec _ _ _ _ hp (by omega) hsk
-                  simp only [Out.bind_ok, ne_eq, not_true_eq_false, decide_false, if_false, Bool.false_eq_true,
-                    gidx0, Verif.idx]
-                  cases hb0 : b[0]? with
-                  | none => exact TSim.panic _
-                  | some vt =>
-                    have hlen : 1 ≤ b.length := by
-                      obtain ⟨h, _⟩ := List.getElem?_eq_some_iff.mp hb0; omega
-                    simp only [Out.bind_ok, sliceFrom_ok b 1 (by omega) (by unfold len; omega), beU32_eq, u32of]
-                    have e1 : (1 : Int).toNat = 1 := rfl
-                    rw [e1]
-                    generalize b.drop 1 = b2
-                    by_cases h4 : 4 ≤ b2.length
-                    · simp only [h4, if_true, Out.bind_ok, wrap_i32_nat _ (rd32_lt b2)]
-                      have hr := toI32_range _ (rd32_lt b2)
-                      generalize toI32 (rd32 b2) = n at hr
-                      by_cases hn : n < 0
-                      · simp only [hn, decide_true, if_true]
-                        exact TSim.perr N s1 2 _
-                      · simp only [hn, decide_false, if_false, Bool.false_eq_true, wrap_i8_nat _ vt.toNat_lt,
-                          tblIdx_fixed, Out.bind_ok]
-                        obtain ⟨sz, rfl⟩ := Int.eq_ofNat_of_zero_le (by omega : 0 ≤ n)
-                        have hs : sz < 2 ^ 31 := by omega
-                        simp only [Int.toNat_natCast]
-                        by_cases hfast : ((fixedSize vt : Nat) : Int) > 0
-                        · have hv := fixedSize_le vt
-                          have hq : sz * fixedSize vt ≤ 2 ^ 31 * 8 := Nat.mul_le_mul (by omega) hv
-                          have e1 : ((sz : Int) * ((fixedSize vt : Nat) : Int)) = ((sz * fixedSize vt : Nat) : Int) := by
-                            simp
-                          rw [e1]
-                          generalize sz * fixedSize vt = q at hq
-                          rw [wrap_i64_of_range (q : Int) (by omega) (by omega), iOf_skipN _ _ _ _ (by omega)]
-                          simp only [hfast, decide_true, if_true, Int.toNat_natCast]
-                          cases hsk2 : B.skipN s1 q with
-                          | ok r2 => exact TSim.ok _
-                          | err e => exact TSim.berr N _ e
-                          | panic m => exact TSim.panic m
-                          | oob => exact TSim.oob
-                        · simp only [hfast, decide_false, if_false, Bool.false_eq_true]
-                          have hl := loop3_sim (I := iOf B N.errOf) H vt sz hs f s1 0 sz (by omega) (by omega)
-                            (by omega) hp1
-                          simp only [Int.natCast_zero] at hl
-                          generalize Funcs.Tpl_Skip_loop3 _ _ _ _ _ _ _ _ = x at hl ⊢
-                          generalize tplListLoop _ _ _ _ = y at hl ⊢
-                          cases hl with
-                          | done s2 j => exact TSim.ok s2
-                          | err s2 e h => exact TSim.err s2 e h
-                          | panic m => exact TSim.panic m
-                          | oob => exact TSim.oob
-                    · simp only [h4, if_false, Out.bind_panic]
-                      exact TSim.panic _
-                | err e =>
-                  simp only [Out.bind_ok, Out.bind_err, ne_eq, N.ne_nil, not_false_eq_true, decide_true, if_true]
-                  exact TSim.berr N _ e
-                | panic m => exact TSim.panic m
-                | oob => exact TSim.oob
-              · have c1 : ¬ toI8 t.toNat = 14 := fun h => hlist (Or.inl ((toI8_eq_tag t 14 (by omega)).mp h))
-                have c2 : ¬ toI8 t.toNat = 15 := fun h => hlist (Or.inr ((toI8_eq_tag t 15 (by omega)).mp h))
-                simp only [if_neg hlist, c1, c2, decide_false, if_false, Bool.false_eq_true, Bool.or_self]
-                exact TSim.perr N s 1 _
+      TSim N (Funcs.Tpl_Skip (iOf B N.errOf) f s (toI8 t.toNat) D) (skipTplAt B d t s) :=
+  fun d f s t D hd hp hf hD =>
+    TSim.of_G (TplG.Tpl_Skip_simG N hM (iOf_impl N B P) d f s s t D rfl hd hp hf hD)
 
 end Tpl
 
